@@ -10,7 +10,7 @@ import netlib
 from common import Stream, cf, clist, cmat, cnat, cq, cstr, main
 from netlib import Pin, lk
 
-MODE_POOL = ["te", "tm", "x", "m3", "q"]
+MODE_POOL = ["te", "tm", "x", "m3", "q", ""]     # the empty string is a mode name like any other: pin "a0_"
 
 
 def ostr(m):
